@@ -30,10 +30,14 @@ SSeqs(S, n) == IF n = 0 THEN {<<>>} ELSE {<<x>> \o s : x \in S, s \in SSeqs(S, n
 MkArr(sh, fi) == [shape |-> sh, first |-> fi, val |-> [k \in 1..Prod(sh) |-> 1000 + k]]
 Arrays == {MkArr(sh, fi) : sh \in SSeqs(0..SMaxExt, SD), fi \in SSeqs(SBases, SD)}
 
-(* the target before loading: empty, same extents (other contents), different extents *)
+(* the target before loading: empty, same extents (other contents), same sizes shifted, same count reshaped, different extents *)
 PriorOf(a, p) ==
   CASE p = "empty" -> [shape |-> [d \in 1..SD |-> 0], first |-> [d \in 1..SD |-> 0], val |-> <<>>]
     [] p = "same"  -> [a EXCEPT !.val = [k \in 1..Prod(a.shape) |-> 5000 + k]]
+    \* the same sizes under another index base, and the same number of elements in another shape: states in which an
+    \* implementation that keeps its storage must still adopt the saved extensions
+    [] p = "shifted" -> [a EXCEPT !.first = [d \in 1..SD |-> a.first[d] + 1], !.val = [k \in 1..Prod(a.shape) |-> 6000 + k]]
+    [] p = "reshaped" -> [shape |-> Rev(a.shape), first |-> [d \in 1..SD |-> 0], val |-> [k \in 1..Prod(a.shape) |-> 8000 + k]]
     [] p = "other" -> [shape |-> [d \in 1..SD |-> a.shape[d] + 1], first |-> [d \in 1..SD |-> 1],
                        val |-> [k \in 1..Prod([d \in 1..SD |-> a.shape[d] + 1]) |-> 7000 + k]]
 
